@@ -334,7 +334,13 @@ def gen_domain(rng, max_depth=2, dim=None, dep=None, k=None, allow=("bool", "pri
         a = prim(actx, center, scale, **({"kinds": ("circle", "parallelogram", "triangle")} if dim == 2 else {}))
         if rng.random() < 0.6:
             a = _make_depend_on(a, "s", rng, scale)
-        spec = {"op": "product", "a": a, "b": bspec}
+        if rng.random() < 0.3:
+            # the second factor has two variables and the first factor depends on one of them only
+            other = {"prim": "interval", "var": "r", "lo": float(rng.uniform(-1, 0)), "hi": float(rng.uniform(0.5, 2))}
+            wrapped = {"op": "product", "a": bspec, "b": other} if rng.random() < 0.5 else {"op": "product", "a": other, "b": bspec}
+            spec = {"op": "product", "a": a, "b": wrapped}
+        else:
+            spec = {"op": "product", "a": a, "b": bspec}
         dep = False
         if k > 0 and rng.random() < 0.5:
             # external parameter t shifts the second factor
